@@ -428,7 +428,17 @@ def time_rules(rep, prog, fn, fi):
                           "%s lies inside the '#pragma omp %s' region of line %s without a single/master construct: every thread of the team executes it (unsynchronised), "
                           "so one position update advances the simulated time by up to nb_threads*dt_%s" % (short(n, 60), per_thread.get("omp"), per_thread.get("l"), latent))
         elif n.get("op") == "+=" and r.get("k") == "MemberExpr" and r["ref"].get("qn") == "time_integration_scheme::dt_" and not in_loop:
-            rep.ok("C03.time", prog, fn, n, "single writer: simulation_time_ += dt_ at the top level of update_nodes_positions")
+            # ... on EVERY path: no condition around it and no return in front of it
+            fi_ = prog.index(fn)
+            from ..model import facts_at
+            conds = facts_at(fn, fi_, n)
+            early = [x for x in walk(fn["body"], into_lambdas=False) if x.get("k") == "ReturnStmt" and fi_.order[id(x)] < fi_.order[id(n)]]
+            if conds or early:
+                what = ("only when %s%s" % ("" if conds[0][1] else "not ", short(conds[0][0], 60))) if conds else ("not on the path that returns at line %s" % early[0].get("l"))
+                rep.violation("C03.time", prog, fn, n, "simulation_time_ is not advanced on every path",
+                              "update_nodes_positions advances the simulated time %s: on the other path a call leaves simulation_time_ unchanged, the clock freezes and solver::run (which loops while time < duration) never terminates / never writes the remaining files" % what)
+            else:
+                rep.ok("C03.time", prog, fn, n, "single writer: simulation_time_ += dt_ at the top level of update_nodes_positions")
         else:
             rep.violation("C03.time", prog, fn, n, "simulation_time_ not advanced by exactly dt_", "%s: one position update must advance the simulated time by exactly one time step, once" % short(n, 60))
     else:
